@@ -382,14 +382,14 @@ def block_index_rule(ctx: Ctx, r) -> None:
             f"hit decision is no longer `the first of all ways that is valid and holds the tag` (recovered: {got})")
 
 
-def source_rule(ctx: Ctx) -> None:
+def source_rule(ctx: Ctx, rid: str = "R03.src") -> None:
     """What a cached read returns is the addressed lane of the block the set lookup (or the fill) delivered *for this access*:
     <width>_from_block(block=_read_block(decode(address))[0], decoded_address=decode(address)) -- no remembered block, no
     second source.  The lookups themselves are compared with their reference formulation (as in C09: R09.hit)."""
     import re as _re
     from ..parsershape import normal_flow
     m = ctx.model
-    r = ctx.rule("R03.src", "a cached read returns the lane of the block looked up for this access")
+    r = ctx.rule(rid, "a cached read returns the lane of the block looked up for this access")
     D = "P0._decode_address(address=P1)"
     for n, fn in (("read_byte", "byte_from_block"), ("read_halfword", "halfword_from_block"), ("read_word", "word_from_block")):
         f = m.method("BaseCacheMemorySystem", n)
